@@ -4,6 +4,8 @@
 #include "vf.h"
 #include <cholmod.h>
 #include <photospline/detail/splineutil.h>
+#include <photospline/splinetable.h>
+extern "C" int photospline_verif_modify_factor_threads; /* hook (PHOTOSPLINE_VERIF): worker count assumed by modify_factor's cost model; 0 = the real one */
 extern "C" {
 #include "cholesky_solve.h"
 }
@@ -72,12 +74,73 @@ static void run(const Args &a, long cs) {
 	if (cs % 10 == 0) sample("{\"kind\":" + jstr(direct ? "direct walk_descents" : "nnls_normal_block3") + ",\"n\":" + std::to_string(n) + ",\"n_alpha\":" + std::to_string(direct ? 2 + nneg : -1) + ",\"sync_calls\":" + std::to_string(vf_delay_sync_calls - sync0) + "}");
 }
 
+// ---- worker counts 1..32 on real fits: the same monotonic fit through splinetable::fit for every worker count; the float coefficients must be the same.
+// BLAS and OpenMP are pinned to one thread by the driver (environment at process start); only the library's own worker count (GOTO_NUM_THREADS, re-read on every
+// call) varies. A difference is attributed by intervention: the fit is repeated with modify_factor's cost model told "one worker" (hook); if that alone restores the
+// single-worker coefficients the worker pool itself is not the cause and the key says so.
+static std::vector<float> fit_once(int nk0, int ns0, int shape, double smooth, uint64_t seed, int workers, bool &ok) {
+	char wb[16]; snprintf(wb, 16, "%d", workers); setenv("GOTO_NUM_THREADS", wb, 1);
+	const int dim = 2; std::vector<uint32_t> orders(dim, 2); std::vector<std::vector<double>> knots(dim), coords(dim);
+	for (int d = 0; d < dim; d++) { int nn = d == 0 ? nk0 : 12; for (int j = 0; j < nn; j++) knots[d].push_back(-0.3 + 1.6 * j / (nn - 1)); int m = d == 0 ? ns0 : 20; for (int j = 0; j < m; j++) coords[d].push_back((j + 0.5) / m); }
+	Rng q(seed, "C12fit-data", 0);
+	// (three fixed problems use the noise sequence under which the dependence was first demonstrated: xorshift64, /tmp/hunt/out/C12/D1)
+	bool golden = seed < 16; unsigned long long xs = 88172645463325252ULL ^ (seed * 0x9E3779B97F4A7C15ULL);
+	auto noise = [&]() -> double { if (!golden) return q.U(); xs ^= xs << 13; xs ^= xs >> 7; xs ^= xs << 17; return (xs >> 11) * (1.0 / 9007199254740992.0); };
+	size_t total = coords[0].size() * coords[1].size(); photospline::ndsparse data(total, dim); std::vector<double> w(total, 1.0); std::vector<unsigned> idx(dim, 0);
+	for (size_t i = 0; i < total; i++) {
+		idx[1] = i % coords[1].size(); idx[0] = i / coords[1].size(); double x = coords[0][idx[0]], y = coords[1][idx[1]];
+		double v = shape == 0 ? 1.0 / (1 + std::exp(-(x - 0.5) * 20)) : std::sin(x * 12) + x * 2; v *= (1 + y); v += (noise() - 0.5) * 0.2;
+		data.insertEntry(v, &idx[0]);
+	}
+	photospline::splinetable<> sp; std::vector<double> pen(dim, smooth); std::vector<uint32_t> po(dim, 2);
+	ok = true;
+	try { sp.fit(data, w, coords, orders, knots, pen, po, 0, false); } catch (std::exception &e) { ok = false; return {}; }
+	size_t nc = (size_t)sp.get_ncoeffs(0) * sp.get_ncoeffs(1);
+	return std::vector<float>(sp.get_coefficients(), sp.get_coefficients() + nc);
+}
+static void run_fit(const Args &a, long cs) {
+	Rng r(a.seed, "C12fit", cs);
+	int nk0 = r.range(40, 100), ns0 = r.range(40, 200), shape = (int)r.below(2); double smooth = std::pow(10.0, -(double)r.range(6, 13)); uint64_t dseed = cs % 2 ? a.seed * 1000003 + (uint64_t)cs : 1 + (a.seed * 7 + (uint64_t)cs) % 15; /* (seeds below 16 select the xorshift noise sequence) */
+	if (cs % 12 < 3) { static const int gk[3][3] = {{100, 200, 0}, {100, 60, 1}, {100, 40, 1}}; static const double gs[3] = {1e-8, 1e-11, 1e-13}; static const uint64_t gd[3] = {3, 3, 2};
+		int g = (int)(cs % 12); nk0 = gk[g][0]; ns0 = gk[g][1]; shape = gk[g][2]; smooth = gs[g]; dseed = gd[g]; count("real-fits:fixed-problems"); }
+	int workers[] = {1, 2, 3, 5, 8, 32};
+	std::string pj = "{\"knots\":[" + std::to_string(nk0) + ",12],\"samples\":[" + std::to_string(ns0) + ",20],\"shape\":" + std::to_string(shape) + ",\"smoothing\":" + jnum(smooth) + ",\"data_seed\":" + std::to_string(dseed) + "}";
+	count("real-fits:problems"); long sync0 = vf_delay_sync_calls;
+	std::vector<float> ref; bool okref = true;
+	for (int wi = 0; wi < 6; wi++) {
+		photospline_verif_modify_factor_threads = 0;
+		phase_log("splinetable::fit(monodim) workers=" + std::to_string(workers[wi]));
+		bool ok; std::vector<float> c = fit_once(nk0, ns0, shape, smooth, dseed, workers[wi], ok);
+		count("real-fits:runs"); count("real-fits:runs:workers=" + std::to_string(workers[wi]));
+		if (wi == 0) { ref = c; okref = ok; if (ok) distinct(hash_mix(hash_mix(1212, cs), (uint64_t)nk0)); continue; }
+		if (ok != okref) { viol("C12:fit(monodim):fails-for-some-worker-counts-only", "{\"workers\":" + std::to_string(workers[wi]) + ",\"problem\":" + pj + "}"); continue; }
+		if (!ok) continue;
+		count("real-fits:worker-count-comparisons");
+		size_t nd = 0; double md = 0; for (size_t i = 0; i < c.size() && i < ref.size(); i++) if (memcmp(&c[i], &ref[i], 4) != 0) { nd++; md = std::max(md, (double)std::fabs(c[i] - ref[i])); }
+		if (c.size() != ref.size()) nd = c.size() + 1;
+		if (nd == 0) continue;
+		// attribute: same worker pool, cost model of modify_factor told "one worker"
+		photospline_verif_modify_factor_threads = 1;
+		phase_log("splinetable::fit(monodim) workers=" + std::to_string(workers[wi]) + " with modify_factor's cost model fixed to one worker");
+		bool ok2; std::vector<float> c2 = fit_once(nk0, ns0, shape, smooth, dseed, workers[wi], ok2);
+		photospline_verif_modify_factor_threads = 0;
+		bool restored = ok2 && c2.size() == ref.size() && memcmp(c2.data(), ref.data(), 4 * ref.size()) == 0;
+		std::string dj = "{\"workers\":" + std::to_string(workers[wi]) + ",\"coefficients_differing\":" + std::to_string(nd) + ",\"of\":" + std::to_string(ref.size()) + ",\"max_abs_difference\":" + jnum(md) + ",\"same_as_one_worker_when_the_cost_model_is_fixed\":" + (restored ? "true" : "false") + ",\"problem\":" + pj + "}";
+		if (restored) viol("C12:fit(monodim):coefficients-depend-on-worker-count:through-the-update-or-refactorise-cost-model-of-modify_factor", dj);
+		else viol("C12:fit(monodim):coefficients-depend-on-worker-count", dj);
+	}
+	unsetenv("GOTO_NUM_THREADS");
+	if (vf_delay_sync_calls > sync0) count("real-fits:problems-that-reached-the-parallel-line-search");
+	if (cs % 4 == 0) sample("{\"kind\":\"real fit\",\"problem\":" + pj + ",\"coefficients\":" + std::to_string(ref.size()) + "}");
+}
+
 int main(int argc, char **argv) {
 	Args a = parse_args(argc, argv);
 	open_out(a.outpath);
 	cholmod_l_start(&verif_cholmod_common);
 	if (a.extra.count("delay")) vf_delay_permille = atoi(a.extra.at("delay").c_str());
-	for (long cs = a.from; cs < a.to; cs++) { begin_case(cs); run(a, cs); }
+	bool fits = a.prop == "C12fit"; if (fits) vf_delay_permille = 0;
+	for (long cs = a.from; cs < a.to; cs++) { begin_case(cs); if (fits) run_fit(a, cs); else run(a, cs); }
 	finish();
 	fflush(stdout);
 	return 0;
